@@ -489,6 +489,11 @@ def compare_fine(case, impl_result, model_ok, fine_impl=None):
     """the fine problem of the theorems (driver field `fine`) against the real fine builder with averaged prices"""
     if case['spec']['args'].get('block_size') is not None:
         return [], ['fine:unjudged-blocks'], None      # the real fine storage places its blocks by the calendar on the FINE points
+    if case['spec']['args'].get('max_store_duration') is not None and not case.get('exact'):
+        # the holding-duration windows compare a float sum of step lengths with the limit WITH A TOLERANCE in the code (repair F-12c) and
+        # exactly in the model: on non-dyadic data (limit 0.8333.. d against steps of 1/6 d) the window ends can differ by one step;
+        # the fine problem with a holding limit is outside the equivalence theorems anyway (Ex.max_hold_witness)
+        return [], ['fine:unjudged-max-hold-inexact'], None
     fc, why = fine_case(case, impl_result)
     if fc is None or 'fine' not in model_ok:
         return [], ['fine:unjudged'], None
